@@ -509,6 +509,9 @@ def jobs(tier):
             kinds = ("translation", "scale+translation")  # ~3 min per scenario; 'general' does not terminate
         for k in kinds:
             js.append(Job(f"docs[{s}|{k}]", job_docs, scenario=s, affine=k))
+    from harness import color_strings
+
+    js += color_strings.jobs(tier)  # every colour written into a document goes through Color.to_string
     return js
 
 
